@@ -7,7 +7,7 @@ WT=/tmp/verify-wt-$$
 git -C /repo worktree add --detach "$WT" HEAD >/dev/null 2>&1 || exit 2
 trap 'git -C /repo worktree remove --force "$WT" >/dev/null 2>&1' EXIT
 cd "$WT" || exit 2
-export CARGO_TARGET_DIR=/tmp/verify-target
+export CARGO_TARGET_DIR=${VERIFY_TARGET:-/tmp/verify-target}
 cp "$DIR/demo.rs" tests/seeded_demo.rs
 for f in "$DIR"/common*.rs; do [ -e "$f" ] && cp "$f" tests/; done
 nopatch=$(cargo test --offline --test seeded_demo 2>&1 | grep -E "^test result" | tail -1)
